@@ -120,3 +120,12 @@ claim("C20",
       "Trusted: rustc MIR; RFC 8259 tables in rules/c20.py; saphyr-parser (YAML events) is an external leaf. Base64/UTF-8/digest values, "
       "decoder-inverts-encoder and YAML/JSON agreement are value-level and not decided.",
       "DESIGN.md §2 C20")
+claim("C15",
+      "MIR decision tables of the precedence-climbing state machine (level chain, level x token membership, continuation level) vs the Jsonnet precedence table",
+      "Decides the first clause of C15 structurally: (R1) the precedence chain LogicOr<...<Mul<Unary, for every level and every simple token "
+      "kind the operator produced (exactly the level's own operators), that the same level continues after an operator and the right operand is "
+      "parsed one level tighter (left associativity), the loosest level as entry, and the unary operator table; (R2) ParseError::Expected is "
+      "only built by report_expected from the current token's span. Print/re-parse stability is not decided (the repository has no printer), "
+      "nor is span containment or the slice grammar.",
+      "Trusted: rustc MIR; Jsonnet precedence table in rules/c15.py.",
+      "DESIGN.md §2 C15")
